@@ -308,7 +308,9 @@ func importNud(p *parser, t *token) *token {
 				p.Advance(";")
 			} else if p.Token.Symbol == "(name)" {
 				t.Append(p.Advance("(name)"))
-				t.Append(p.Advance("(string)"))
+				path := p.Advance("(string)")
+				path.Unquote() // a malformed import path is a parse error, as in the form without alias
+				t.Append(path)
 			} else {
 				appendAlias(p, t)
 			}
